@@ -574,6 +574,36 @@ class C10(PropCheck):
             return self._run_phases(case)
         gp, _ = self._gp(rec)
         d = rec['dim']
+        try:
+            _ls = np.asarray(gp._gp.kern.rbf.lengthscale, dtype=float).reshape(-1)
+            _degenerate = bool(np.any(_ls == 0) or not np.all(np.isfinite(_ls)))
+        except Exception:
+            _degenerate = False
+        if _degenerate:
+            # hyper-parameter optimisation ended with a zero / non-finite RBF lengthscale: GPy's own kernel is 0/0
+            # there and the surrogate defines nothing to compare with (counted, not judged)
+            self.bump('degenerate_surrogate_skipped')
+            return dict(skipped='degenerate surrogate (lengthscale %r)' % _ls.tolist())
+        if case['kind'] == 'fast' and bool(np.any(np.square(_ls) == 0)):
+            # a lengthscale below 1e-154 reached by the optimiser: GPy still predicts (k(x, x') = [x == x']), the
+            # accelerated path divides by lengthscale**2 == 0.0
+            x0 = np.array(case['points'][0], dtype=float)[None, :]
+            gp.is_sampling = False
+            lib_ok = True
+            try:
+                gp.predict(x0)
+            except Exception:
+                lib_ok = False
+            gp.is_sampling = True
+            try:
+                gp.predict(x0)
+                raised = None
+            except ZeroDivisionError as e:
+                raised = 'ZeroDivisionError: %s' % e
+            finally:
+                gp.is_sampling = False
+            self.bump('tiny_lengthscale_cases')
+            return dict(tiny_lengthscale=_ls.tolist(), lib_ok=lib_ok, fast_raised=raised)
         if case['kind'] == 'fast':
             res = []
             for p in case['points']:
@@ -758,6 +788,13 @@ class C10(PropCheck):
 
     # ---- python-side clauses --------------------------------------------------------------------
     def py_check(self, case, out):
+        if out.get('skipped'):
+            return []
+        if 'tiny_lengthscale' in out:
+            if out['lib_ok'] and out['fast_raised']:
+                return [('fast_path_defined', 'lengthscale %r reached by optimisation: the GP library predicts, the accelerated path raised %s'
+                         % (out['tiny_lengthscale'], out['fast_raised']))]
+            return []
         fails = []
         if case['kind'] == 'fast':
             if not out['default_kernel']:
@@ -968,6 +1005,8 @@ class C10(PropCheck):
         return fails[:3]
 
     def nontrivial(self, case, out):
+        if out.get('skipped') or 'tiny_lengthscale' in out:
+            return None
         key = json.dumps([case['recipe'], case.get('query'), case.get('points'), case.get('threshold'), case.get('prior'), case.get('steps')], sort_keys=True)
         if case['kind'] == 'phase':
             ok = len(case['points']) >= 2 and any(ph['step'] is not None and ph['step']['op'] != 'update' and ph['changed'] for ph in out.get('phases', []))
@@ -979,6 +1018,8 @@ class C10(PropCheck):
         return key if any(k in ('in', 'on', 'corner') for k in case['query']['kinds']) else None
 
     def classify(self, case, out, clause):
+        if clause == 'fast_path_defined' and 'tiny_lengthscale' in out:
+            return 'fast-path-zero-division-tiny-lengthscale'
         if clause == 'gradient_finite_where_logpdf_finite':
             bad = [r for r, g, lp in zip(out['rows'], out['grad'], out['logpdf'])
                    if not isinstance(lp, str) and any(isinstance(v, str) for v in g)]
@@ -988,7 +1029,7 @@ class C10(PropCheck):
 
     # ---- Coq terms --------------------------------------------------------------------------
     def to_coq(self, case, out):
-        if case['kind'] in ('fast', 'phase') or 'ctor_exception' in out:
+        if out.get('skipped') or 'tiny_lengthscale' in out or case['kind'] in ('fast', 'phase') or 'ctor_exception' in out:
             return None
         if case['kind'] == 'post' and any(self._surrogate_grad_nonfinite(r) for r in (out.get('rows') or [])):
             self.bump('surrogate_gradient_nonfinite_cases_not_sent_to_coq')
